@@ -76,11 +76,22 @@ func confdecodeConc(vars map[string]*cdVariant, e *cdEnv, out string, goroutines
 		trees[n] = build(vars[n].full, nil, nil, e.props)
 		conf := cli.DefaultConfig()
 		if err := config.DecodeAndValidate(shapeMap(trees[n], "viper"), conf); err != nil {
+			// the documented configuration itself is rejected: recorded as a failed decode of the whole variant
 			fmt.Fprintln(os.Stderr, "conc: base configuration rejected:", n, err)
-			os.Exit(3)
+			w.Emit(map[string]interface{}{"kind": "section", "how": "decode", "v": n, "pre": []string{}, "leaf": []int{},
+				"n": 1, "nerr": 1, "vectors": [][]string{}, "err": oneLine(err.Error())})
+			delete(trees, n)
+			continue
 		}
 		whole[n] = conf
 	}
+	kept := names[:0]
+	for _, n := range names {
+		if trees[n] != nil {
+			kept = append(kept, n)
+		}
+	}
+	names = kept
 
 	var jobs []*ccJob
 	for _, n := range names {
@@ -174,7 +185,8 @@ func confdecodeConc(vars map[string]*cdVariant, e *cdEnv, out string, goroutines
 		conf := cli.DefaultConfig()
 		if err := config.DecodeAndValidate(shapeMap(trees[n], "viper"), conf); err != nil {
 			fmt.Fprintln(os.Stderr, "conc: base configuration rejected by the real constructors:", n, err)
-			os.Exit(3)
+			w.Emit(map[string]interface{}{"kind": "real", "v": n, "pre": []string{}, "n": 1, "nerr": 1, "lefts": []string{}, "err": oneLine(err.Error())})
+			continue
 		}
 		for pi, p := range conf.Engine.Pools {
 			facts = append(facts, p.NewRPSSchedule)
